@@ -8,11 +8,12 @@ def run(ck):
         return
     ck.assumptions += ['nom::branch::alt is ordered choice and nom::bytes::complete::tag / tag_no_case are prefix matches (library contract)',
                        'parse2 / parse1 are constructors (what they are given is what the tree holds)']
-    ck.out_of_scope += ['the full grammar: literals, identifiers, calls, index/access, if/let/?:, templates, whitespace and comments between tokens',
+    ck.out_of_scope += ['the full grammar: literals, identifiers, calls, index/access, if/let, templates, whitespace and comments between tokens',
                         'that a minimally parenthesised expression parses to the same tree as the fully parenthesised one (needs the nom combinators themselves)']
     levels = grammar.spec_operator_tables(ck)
     grammar.spec_parse2_total(ck, levels)
     import contracts_async  # noqa
     grammar.spec_prefix_operators(ck)
     grammar.spec_binary_levels_fold_left(ck, levels)
+    grammar.spec_conditional_nests_right(ck)
     ck.post_filter = lambda o: o.label.startswith('C09/') or o.status in ('undecided', 'vacuous', 'inconclusive') or 'parse2' in (o.target or '')
